@@ -820,24 +820,35 @@ fn handle_hang(o: &Opts, run: u64) -> i32 {
         let hdr_n: usize = lines.next().and_then(|l| l.strip_prefix("nsamples ")).and_then(|v| v.parse().ok()).unwrap_or(1);
         let mut words = Vec::new();
         let mut markers = 0usize;
+        let mut last_sample_start = 0usize;
         for l in lines {
             if l.trim() == "sample" {
                 markers += 1;
+                last_sample_start = words.len();
             } else if let Ok(w) = rngsim::RCase::parse_words(l) {
                 words.extend(w);
             }
         }
         let nsamples = if entry == rngsim::Entry::Iter { hdr_n } else { markers.max(1) };
-        let case = rngsim::RCase { qt, entry, nsamples, words };
-        let f = rngsim::RFailure { clause: rngsim::RClause::Hang, sample: nsamples - 1, observed: HANG_OBSERVED.into() };
+        let mut case = rngsim::RCase { qt, entry, nsamples, words };
+        let mut f = rngsim::RFailure { clause: rngsim::RClause::Hang, sample: nsamples - 1, observed: HANG_OBSERVED.into() };
+        // cheap minimisation: the last started sample alone (one fresh-process trial)
+        if entry != rngsim::Entry::Iter && nsamples > 1 && last_sample_start <= case.words.len() {
+            let c1 = rngsim::RCase { qt, entry, nsamples: 1, words: case.words[last_sample_start..].to_vec() };
+            let f1 = rngsim::RFailure { clause: rngsim::RClause::Hang, sample: 0, observed: HANG_OBSERVED.into() };
+            if replay::write_rng(&path, &meta, &c1, &f1).is_ok() && fresh_process_replay(&path, "hang", 0, HANG_OBSERVED).is_ok() {
+                case = c1;
+                f = f1;
+            }
+        }
         if replay::write_rng(&path, &meta, &case, &f).is_err() {
             return 2;
         }
-        if let Err(e) = fresh_process_replay(&path, "hang", nsamples - 1, HANG_OBSERVED) {
+        if let Err(e) = fresh_process_replay(&path, "hang", f.sample, HANG_OBSERVED) {
             eprintln!("simcheck: {e}");
             return 2;
         }
-        println!("violation: run {run}: the sampler did not return within {} s after {} words ({} samples started); not minimised", HANG_MS / 1000, case.words.len(), nsamples);
+        println!("violation: run {run}: the sampler did not return within {} s after {} words ({} samples started; replay holds {} sample(s))", HANG_MS / 1000, case.words.len(), nsamples, case.nsamples);
         println!("  words: {}", case.words_text());
     } else {
         let init_via: u8 = lines.next().and_then(|l| l.strip_prefix("init_via ")).and_then(|v| v.parse().ok()).unwrap_or(0);
@@ -852,9 +863,21 @@ fn handle_hang(o: &Opts, run: u64) -> i32 {
             eprintln!("simcheck: hanging run {run} left no event in its trace");
             return 2;
         }
-        let case = Case { qt, init_via, events };
-        let step = case.events.len() - 1;
-        let f = Failure { clause: Clause::Hang, step, expected: "the event and the observers after it return".into(), observed: HANG_OBSERVED.into() };
+        let full = Case { qt, init_via, events };
+        let mk = |c: &Case| Failure { clause: Clause::Hang, step: c.events.len() - 1, expected: "the event and the observers after it return".into(), observed: HANG_OBSERVED.into() };
+        // cheap minimisation: the shortest suffix (1..4 events, from a cleared quire) that still
+        // hangs — each trial is a fresh process, so at most four of them
+        let mut case = full.clone();
+        for n in 1..=4usize.min(full.events.len().saturating_sub(1)) {
+            let c = Case { qt, init_via: 0, events: full.events[full.events.len() - n..].to_vec() };
+            let f = mk(&c);
+            if replay::write_quire(&path, &o.prop, &meta, &c, &f).is_ok() && fresh_process_replay(&path, "hang", f.step, HANG_OBSERVED).is_ok() {
+                case = c;
+                break;
+            }
+        }
+        let f = mk(&case);
+        let step = f.step;
         if replay::write_quire(&path, &o.prop, &meta, &case, &f).is_err() {
             return 2;
         }
@@ -862,7 +885,7 @@ fn handle_hang(o: &Opts, run: u64) -> i32 {
             eprintln!("simcheck: {e}");
             return 2;
         }
-        println!("violation: run {run}: event {step} (or an observer after it) did not return within {} s; history not minimised", HANG_MS / 1000);
+        println!("violation: run {run}: event {step} of this history (or an observer after it) did not return within {} s ({} of the run's {} events kept)", HANG_MS / 1000, case.events.len(), full.events.len());
         for (n, e) in case.events.iter().enumerate() {
             println!("  [{n}] {}", e.text());
         }
